@@ -74,7 +74,7 @@ func runGraffiti(c *GraffitiCase, out *outcome) {
 func genGraffitiCase(t *rapid.T) Case {
 	c := &GraffitiCase{
 		Slot:           genSlot(t),
-		ValidatorIndex: rapid.SampledFrom([]uint64{0, 1, 12345, ^uint64(0)}).Draw(t, "validatorIndex"),
+		ValidatorIndex: genU64(t, "validatorIndex"),
 		ClientName:     rapid.SampledFrom(clientNames).Draw(t, "clientName"),
 		Repeat:         rapid.IntRange(1, 4).Draw(t, "repeat"),
 	}
